@@ -40,6 +40,7 @@ fn main() {
         "sse" => sse::engine_sse(&rt, cases, &mut out),
         "patch" => fsops::engine_patch(&rt, cases, &mut out),
         "pathguard" => fsops::engine_pathguard(&rt, cases, &mut out),
+        "ckpt" => fsops::engine_ckpt(&rt, cases, &mut out),
         other => {
             eprintln!("unknown engine {other}");
             std::process::exit(2);
